@@ -19,6 +19,27 @@ Theorem C02_run_characterised : forall body pick p o kw,
 Proof. exact run_char_final. Qed.
 Print Assumptions C02_run_characterised.
 
+(* Pipeline.run as the code performs it since the repair "validate the keyword arguments of Pipeline.run before
+   executing anything" is Pipe.run_checked: the keywords are validated first (Pipe.run_precheck: a needed parameter
+   without value -> ValueError, else a keyword naming no parameter of a needed function -> UnusedParametersError,
+   both with an EMPTY call log), then `Pipe.run` evaluates.  Every theorem below about `run` therefore describes the
+   call whenever the precheck passes (run_checked_pass); with `sufficient` and `no_unused` it does. *)
+Theorem C02_run_checked_characterised : forall body pick p o kw,
+  wf_pipeline p -> is_output p o = true -> aget kw o = None ->
+  (missingb p kw o = true -> run_checked body pick p o kw false = (Err ValueError, []))
+  /\ (missingb p kw o = false -> surplusb p kw o = true ->
+      run_checked body pick p o kw false = (Err UnusedParametersError, []))
+  /\ (missingb p kw o = false -> surplusb p kw o = false ->
+      run_checked body pick p o kw false = run body pick p o kw false
+      /\ fst (run body pick p o kw false) = lift_value (eval_top body pick p kw o)).
+Proof. exact run_checked_char. Qed.
+Print Assumptions C02_run_checked_characterised.
+
+Theorem C02_precheck_is_sufficient_and_no_unused : forall p kw o,
+  (missingb p kw o = false <-> sufficient p kw o) /\ (surplusb p kw o = false <-> no_unused p kw o).
+Proof. intros p kw o. exact (conj (missingb_sufficient p kw o) (surplusb_no_unused p kw o)). Qed.
+Print Assumptions C02_precheck_is_sufficient_and_no_unused.
+
 (* pipeline(o, kw...) = run = func(o)(kw...) returns the value of the specification *)
 Theorem C02_run_eq_eval : forall body pick p o kw,
   wf_pipeline p -> is_output p o = true -> aget kw o = None -> no_unused p kw o ->
@@ -83,7 +104,8 @@ Theorem C02_producer_called_only_if_needed : forall body pick p o kw v g,
 Proof. exact producer_called_only_if_needed. Qed.
 Print Assumptions C02_producer_called_only_if_needed.
 
-(* a keyword that names no parameter of an executed function is rejected (after the evaluation) *)
+(* a keyword that names no parameter of an executed function is rejected by the evaluation proper as well (the
+   up-front check of run_checked already rejects it before anything runs: C02_run_checked_characterised) *)
 Theorem C02_unused_rejected : forall body pick p o kw v,
   wf_pipeline p -> is_output p o = true -> aget kw o = None -> eval_top body pick p kw o = Ok v ->
   (exists k, In k (akeys kw) /\ ~ In k (param_names_needed p kw o)) ->
